@@ -190,6 +190,9 @@ class HydrogenIon(Contribution):
 
     def prepare_each(self, model, wngrid):
         self._nlayers = model.nLayers
+        # needed by contribute() when the component is evaluated on its own
+        # (model_full_contrib) without an earlier prepare()
+        self._ngrid = wngrid.shape[0]
         self._P_dyne = model.pressureProfile * 1e6
 
         ## Since our pressure is in Pa already:
